@@ -171,8 +171,9 @@ PROPS = {
     "C12": {
         "run": c12, "files": VAL_FILES,
         "assumptions": ASSUME_COMMON + [
-            "Validate.machine mirrors today's comparisons (fracBad/probBad/sumBad = ...Cur); the full soundness theorem is proved "
-            "for the NaN-rejecting comparisons (C12_sound_fixed) and is false for today's (C12_unsound_today_*), see Props/C12.lean",
+            "Validate.machine mirrors today's NaN-rejecting comparisons (Validate.checks = checksFixed since fix 65165a2, "
+            "theorem C12_today_is_fixed); the full soundness theorem C12_sound is about that model; the witnesses for the "
+            "previous comparison style (C12_unsound_cur_*) are kept as the record of the repaired defect, see Props/C12.lean",
             "Machine::from_str is covered by the correspondence only (decode model belongs to C11); Framework::new indexing beyond "
             "initialisation is C01",
         ],
